@@ -6,7 +6,7 @@ import vlib
 HARNESS = ["multiboot/c10_mb_test.go"]
 PKG = ("kernel", "multiboot")
 DESIGN_BUGS_QUICK = ["NoAlign", "LastWins", "TypeGt5"]
-DESIGN_BUGS_FULL = ["NoAlign", "LastWins", "Stride24", "SizeWithHeader", "TypeGt5", "CmdLenPlusOne", "ReportEmpty", "EagerStrtab"]
+DESIGN_BUGS_FULL = ["NoAlign", "LastWins", "Stride24", "SizeWithHeader", "TypeGt5", "CmdLenPlusOne", "ReportEmpty", "EagerStrtab", "RgbUnlessText"]
 ASSUME = [
     "well-formed blocks only: declared tag sizes are exact, memory-map tag size = 16 + entries*entry_size, command line NUL-terminated inside its tag, "
     "ELF tag with 64-byte (ELF64) section headers: either no section at all (string-table index 0) or >= 1 section with a valid string-table index and name offsets inside a NUL-terminated string table",
@@ -15,7 +15,7 @@ ASSUME = [
     "command-line entries with two or more '=' are neither key=value nor bare flag: blocks containing one are still decoded (fault check) but their "
     "command-line result is not constrained; for a bare flag only the presence of the key is required; a key given twice may report either value; bytes 1..127 only",
     "ELF section flags are generated below 2^32 (the visitor's flag type is 32 bits wide); sections are compared as a bag (the statement orders regions, not sections)",
-    "RGB layout is required for framebuffer type 1 only; for other types RGBColorInfo() is not constrained",
+    "an RGB layout is reported iff the framebuffer tag has type 1 (direct colour); for indexed, EGA-text and unknown types RGBColorInfo() must be nil (logged as an empty list)",
     "reads outside the block are observed as faults on the PROT_NONE page that directly follows the block (and the string table); a stray read that stays "
     "inside mapped memory before the block is visible only through a wrong result",
     "trusted Go: the block encoder (abstract tags -> bytes), the guard-page arena and the event logger in harness/multiboot (no expected results in them)",
